@@ -21,6 +21,8 @@ func c17(c *Ctx) {
 	r.Rule("C17.brnetconn", "brNetConn.Read: while br != nil it reads through br into p truncated to br.Buffered(), returns that read's (n, err) and drops br only after a Buffered() == 0 observed after the read; with br == nil it delegates to the embedded connection; brNetConn declares no other net.Conn method")
 	r.Rule("C17.client-reader", "the reader handed to http.ReadResponse in DialContext is Conn.br of the Conn created by newConn on the dialed connection, and that Conn is the one returned; DialContext creates no other bufio.Reader")
 	r.Assume("bufio.Reader.Read with len(p) <= Buffered() returns buffered bytes without reading from the underlying connection")
+	r.Rule("C17.reader-fits-control-frames", "whichever reader the connection ends up with (reused hijacked reader, or its own) holds a maximal control frame: a reused small reader would fail on the first large ping and lose everything after it (same rule as C08.read-buffer)")
+	c08readBufferAs(c, newReader(c), "C17.reader-fits-control-frames")
 	r.Rule("C17.reader-stable", "the connection keeps the one reader it was built with: Conn.br is assigned only by newConn, and bufio.Reader.Reset is never called on Conn.br or on a brNetConn's reader (Reset discards the buffered bytes - frames that arrived together with the handshake)")
 	readerStable(c, "C17.reader-stable")
 
